@@ -510,7 +510,10 @@ impl Local {
     #[inline]
     pub(crate) fn acquire_handle(&self) {
         let handle_count = self.handle_count.get();
-        debug_assert!(handle_count >= 1);
+        // A guard may outlive every handle of its participant (a `LocalHandle` dropped while a
+        // guard is alive, or the temporary registration used once the thread-local handle has
+        // been destroyed); re-activating such a guard is legitimate.
+        debug_assert!(handle_count >= 1 || self.guard_count.get() >= 1);
         self.handle_count.set(handle_count + 1);
     }
 
